@@ -168,6 +168,8 @@ impl QueryTask {
         let mut batch_results = BTreeMap::<usize, BatchResult>::new();
         let mut explains = Vec::new();
         while let Some((partition, id)) = self.next_partition() {
+            #[cfg(feature = "verif")]
+            crate::verif::sync_point("query:before_partition", "");
             let show = self.show.contains(&id);
             let cols =
                 partition.get_cols(&self.referenced_cols, &self.db, self.perf_counter.as_ref());
